@@ -288,6 +288,33 @@ Proof.
   - rewrite IH; [reflexivity|]. intros m Hm. apply H. exact Hm.
 Qed.
 
+Lemma nth_error_upd_nth_same {A} (l : list A) : forall i x y, nth_error l i = Some y -> nth_error (upd_nth l i x) i = Some x.
+Proof. induction l; intros [|i] x y H; cbn in *; try discriminate; [reflexivity|eapply IHl; eauto]. Qed.
+
+(* the general re-parenting pass changes fork-choice parents and weights only *)
+Lemma reparent_general_refs : forall cnt i pa,
+  map n_ref (pa_nodes (fst (reparent_general cnt i pa))) = map n_ref (pa_nodes pa).
+Proof.
+  induction cnt; intros i pa; cbn [reparent_general]; [reflexivity|].
+  unfold mbind at 1. unfold get at 1. unfold mbind at 1. unfold lift_o at 1.
+  unfold rawNode. destruct (nthN (pa_nodes pa) (N.of_nat i)) as [node|] eqn:En; [|reflexivity].
+  assert (Hi : nth_error (pa_nodes pa) i = Some node).
+  { unfold nthN in En. destruct (_ <? _); [|discriminate]. rewrite Nat2N.id in En. exact En. }
+  unfold mbind at 1.
+  match goal with |- context [(if ?c then ret tt else ?e) pa] => destruct c end; [cbn [ret]; apply IHcnt|].
+  destruct (bs_get (pa_bs pa) (n_parent node)) as [lowest|]; [|cbn [ret]; apply IHcnt].
+  destruct (snd (n_ref node) <=? lowest); [cbn [ret]; apply IHcnt|].
+  destruct (idx_get (pa_idx pa) (n_parent node, lowest)) as [pidx|]; [|cbn [ret]; apply IHcnt].
+  set (nodes1 := upd_nth (pa_nodes pa) i (set_fp node pidx)).
+  assert (H1 : map n_ref nodes1 = map n_ref (pa_nodes pa)).
+  { unfold nodes1. apply upd_nth_refs. intros m Hm. rewrite Hi in Hm. inversion Hm. reflexivity. }
+  destruct (nthN nodes1 (sub64 pidx (pa_off pa))) as [pn|] eqn:Ep; [|reflexivity].
+  cbn [put]. rewrite IHcnt. cbn [pa_nodes]. rewrite <- H1.
+  unfold updN. destruct (_ <? _) eqn:El; [|reflexivity].
+  apply upd_nth_refs. intros m Hm. cbn.
+  unfold nthN in Ep. rewrite El in Ep. rewrite Ep in Hm. inversion Hm. reflexivity.
+Qed.
+
 (* C10 prune, for every array state, anchor and sink behaviour: the nodes removed are a prefix of the node table; with a sink,
    exactly those nodes were handed to it, once each and in order; if the sink refused a node, that node is the one extra call,
    it stays in the array and the prune reports failure *)
@@ -316,57 +343,27 @@ Proof.
   destruct (collect_pruned fixed pa1 (N.to_nat (ai - pa_off pa1)) (pa_off pa1) hi canon []) as [pruned| | | |] eqn:Ec; try discriminate.
   pose proof (collect_refs _ _ _ _ _ _ _ Ec (N.le_refl _)) as Hrefs. cbn [map rev app] in Hrefs.
   rewrite N.sub_diag in Hrefs. unfold slice in Hrefs. cbn [N.to_nat skipn] in Hrefs.
-  cbn [f_prune_maps f_prune_reparent fixed].
+  cbn [f_prune_maps f_prune_partial fixed].
+  assert (Hlp : length pruned = Nat.min (N.to_nat (ai - pa_off pa1)) (length (pa_nodes pa1))).
+  { rewrite <- (map_length fst pruned), Hrefs, map_length. apply firstn_length. }
   destruct (pa_sink_nil pa1) eqn:Enil.
   - (* nil sink: everything collected is dropped, no call *)
-    cbn [negb]. unfold mbind at 1.
     set (pa3 := drop_pruned fixed (firstn (N.to_nat (lenN pruned)) pruned) pa1).
-    match goal with |- context [lift_o (rawNode pa3 ?x)] => destruct (rawNode pa3 x) as [an3| | | |] eqn:Ean3 end;
-      unfold lift_o at 1; try discriminate.
-    destruct (reparent_loop (pa_nodes pa3) (pa_off pa3) ai ar asl) as [[nodes' w] ch] eqn:Erp.
-    unfold mbind, put, ret. intros H. inversion H. subst pa' calls failed. clear H.
-    exists pa1, (length pruned). cbn [pa_nodes].
-    assert (Hdrop : map n_ref (pa_nodes pa3) = skipn (length pruned) (map n_ref (pa_nodes pa1))).
-    { unfold pa3. rewrite drop_pruned_refs. f_equal. unfold lenN. rewrite Nat2N.id. rewrite firstn_all. reflexivity. }
-    split; [|split; [congruence|split; [auto|discriminate]]].
-    destruct ch; [|exact Hdrop].
-    pose proof (reparent_refs (pa_nodes pa3) (pa_off pa3) ai ar asl) as Hr. rewrite Erp in Hr. cbn [fst] in Hr.
-    rewrite <- Hdrop, <- Hr. unfold updN. destruct (_ <? _); [|reflexivity].
-    apply upd_nth_refs. intros m Hm. cbn.
-    (* the anchor node keeps its ref: it is the node read at that position *)
-    unfold rawNode, nthN in Ean3. destruct (_ <? _) in Ean3; [|discriminate].
-    assert (Hm' : nth_error (map n_ref nodes') (N.to_nat (sub64 ai (pa_off pa3))) = Some (n_ref m)) by (rewrite nth_error_map, Hm; reflexivity).
-    rewrite Hr in Hm'. rewrite nth_error_map in Hm'. destruct (nth_error (pa_nodes pa3) _); [|discriminate]. inversion Ean3. subst. inversion Hm'. reflexivity.
-  - cbn [negb].
-    destruct (sink_loop sink 0 pruned []) as [[upto fl] cl] eqn:Es.
+    cbn [put]. unfold mbind at 1.
+    pose proof (reparent_general_refs (length (pa_nodes pa3)) 0 pa3) as Hr.
+    destruct (reparent_general (length (pa_nodes pa3)) 0 pa3) as [pa4 o4]. cbn [fst] in Hr.
+    destruct o4; try discriminate. cbn [ret]. intros H. inversion H. subst pa' calls failed. clear H.
+    exists pa1, (length pruned). split; [|split; [congruence|split; [auto|discriminate]]].
+    rewrite Hr. unfold pa3. rewrite drop_pruned_refs. f_equal. unfold lenN. rewrite Nat2N.id. rewrite firstn_all. reflexivity.
+  - destruct (sink_loop sink 0 pruned []) as [[upto fl] cl] eqn:Es.
     pose proof (sink_loop_spec sink _ _ _ _ _ _ Es) as [m [E1 [E2 [E3 E4]]]]. cbn [rev app] in E1. rewrite N.add_0_l in E2. subst upto.
     set (pa3 := drop_pruned fixed (firstn (N.to_nat (N.of_nat m)) pruned) pa1).
-    assert (Hdrop : map n_ref (pa_nodes pa3) = skipn m (map n_ref (pa_nodes pa1))).
-    { unfold pa3. rewrite drop_pruned_refs. f_equal. rewrite Nat2N.id. apply firstn_length_le. lia. }
-    assert (Hcalls : map fst cl = firstn (m + (if fl then 1 else 0)) (map n_ref (pa_nodes pa1))).
-    { assert (Hlp : length pruned = length (firstn (N.to_nat (ai - pa_off pa1)) (pa_nodes pa1))).
-      { rewrite <- (map_length fst pruned), Hrefs, map_length. reflexivity. }
-      rewrite firstn_length in Hlp.
-      rewrite E1. rewrite <- firstn_map, Hrefs. rewrite !firstn_map. rewrite firstn_firstn. f_equal. f_equal. lia. }
-    assert (Hfail : fl = true -> (m < length (pa_nodes pa1))%nat).
-    { intros ->. assert (length pruned <= length (pa_nodes pa1))%nat.
-      { rewrite <- (map_length fst pruned), Hrefs, map_length, firstn_length. lia. }
-      lia. }
-    destruct fl.
-    + unfold mbind, put, ret. intros H. inversion H. subst pa' calls failed. clear H.
-      exists pa1, m. split; [exact Hdrop|]. split; [intros _; exact Hcalls|]. split; [congruence|auto].
-    + unfold mbind at 1.
-      match goal with |- context [lift_o (rawNode pa3 ?x)] => destruct (rawNode pa3 x) as [an3| | | |] eqn:Ean3 end;
-        unfold lift_o at 1; try discriminate.
-      destruct (reparent_loop (pa_nodes pa3) (pa_off pa3) ai ar asl) as [[nodes' w] ch] eqn:Erp.
-      unfold mbind, put, ret. intros H. inversion H. subst pa' calls failed. clear H.
-      exists pa1, m. cbn [pa_nodes].
-      split; [|split; [intros _; exact Hcalls|split; [congruence|discriminate]]].
-      destruct ch; [|exact Hdrop].
-      pose proof (reparent_refs (pa_nodes pa3) (pa_off pa3) ai ar asl) as Hr. rewrite Erp in Hr. cbn [fst] in Hr.
-      rewrite <- Hdrop, <- Hr. unfold updN. destruct (_ <? _); [|reflexivity].
-      apply upd_nth_refs. intros m0 Hm. cbn.
-      unfold rawNode, nthN in Ean3. destruct (_ <? _) in Ean3; [|discriminate].
-      assert (Hm' : nth_error (map n_ref nodes') (N.to_nat (sub64 ai (pa_off pa3))) = Some (n_ref m0)) by (rewrite nth_error_map, Hm; reflexivity).
-      rewrite Hr in Hm'. rewrite nth_error_map in Hm'. destruct (nth_error (pa_nodes pa3) _); [|discriminate]. inversion Ean3. subst. inversion Hm'. reflexivity.
+    cbn [put]. unfold mbind at 1.
+    pose proof (reparent_general_refs (length (pa_nodes pa3)) 0 pa3) as Hr.
+    destruct (reparent_general (length (pa_nodes pa3)) 0 pa3) as [pa4 o4]. cbn [fst] in Hr.
+    destruct o4; try discriminate. cbn [ret]. intros H. inversion H. subst pa' calls failed. clear H.
+    exists pa1, m. split; [|split; [|split; [congruence|]]].
+    + rewrite Hr. unfold pa3. rewrite drop_pruned_refs. f_equal. rewrite Nat2N.id. apply firstn_length_le. lia.
+    + intros _. rewrite E1. rewrite <- firstn_map, Hrefs. rewrite !firstn_map. rewrite firstn_firstn. f_equal. f_equal. lia.
+    + intros ->. lia.
 Qed.
